@@ -35,10 +35,10 @@ func generateFullIntegrationDiagramHelper(m *sysl.Module,
 	integrationPairs *[]integrationPair) (string, error) {
 	var result string
 	result = mermaid.GeneratedHeader + "graph TD\n"
-	for appName, appValue := range m.Apps {
-		endPoints := appValue.Endpoints
-		for _, endPoint := range endPoints {
-			statements := endPoint.Stmt
+	for _, appName := range mermaid.SortedAppNames(m) {
+		app := m.Apps[appName]
+		for _, epName := range mermaid.SortedEndpointNames(app) {
+			statements := app.Endpoints[epName].Stmt
 			result += printIntegrationDiagramStatements(m, statements, appName, integrationPairs)
 		}
 	}
@@ -55,10 +55,10 @@ func generateIntegrationDiagramHelper(m *sysl.Module, appName string,
 			return "", err
 		}
 	}
-	endPoints := m.Apps[appName].Endpoints
+	app := m.Apps[appName]
 	// For every endpoint, the statements are retrieved and we pass it to the printer to print appropriate mermaid code
-	for _, endPoint := range endPoints {
-		statements := endPoint.Stmt
+	for _, epName := range mermaid.SortedEndpointNames(app) {
+		statements := app.Endpoints[epName].Stmt
 		result += printIntegrationDiagramStatements(m, statements, appName, integrationPairs)
 	}
 	return result, nil
@@ -70,21 +70,21 @@ func generateMultipleAppIntegrationDiagramHelper(m *sysl.Module, appNames []stri
 	result = mermaid.GeneratedHeader + "graph TD\n"
 	for _, appName := range appNames {
 		if app := m.Apps[appName]; app != nil {
-			endPoints := app.Endpoints
 			result += printClassStatement(appName)
-			for _, endPoint := range endPoints {
-				statements := endPoint.Stmt
+			for _, epName := range mermaid.SortedEndpointNames(app) {
+				statements := app.Endpoints[epName].Stmt
 				result += printIntegrationDiagramStatements(m, statements, appName, integrationPairs)
 			}
 		}
 	}
 
 	// Get all applications which call an App in appNames
-	for currentApp, appValue := range m.Apps {
-		endPoints := appValue.Endpoints
-		for _, endPoint := range endPoints {
+	for _, currentApp := range mermaid.SortedAppNames(m) {
+		app := m.Apps[currentApp]
+		for _, epName := range mermaid.SortedEndpointNames(app) {
 			for _, targetApp := range appNames {
-				result += printIntegrationDiagramStatementsTargetedApp(m, endPoint.Stmt, currentApp, integrationPairs, targetApp)
+				result += printIntegrationDiagramStatementsTargetedApp(
+					m, app.Endpoints[epName].Stmt, currentApp, integrationPairs, targetApp)
 			}
 		}
 	}
